@@ -5,6 +5,7 @@ import (
 
 	"github.com/lmorg/murex/lang/stdio"
 	"github.com/lmorg/murex/utils"
+	"github.com/lmorg/murex/utils/verifhook"
 )
 
 // Write is the standard Writer interface Write() method.
@@ -35,6 +36,7 @@ func (stdin *Stdin) Write(p []byte) (int, error) {
 		}
 	}
 
+	verifhook.Yield("streams.Write.gap")
 	stdin.mutex.Lock()
 	stdin.buffer = appendBytes(stdin.buffer, p...)
 	stdin.bWritten += uint64(len(p))
@@ -77,6 +79,7 @@ func (stdin *Stdin) ReadFrom(r io.Reader) (int64, error) {
 				return total, rErr
 			}
 
+			verifhook.Yield("streams.ReadFrom.loop")
 			i, wErr = stdin.Write(p[:i])
 			if wErr != nil {
 				return total, wErr
